@@ -7,6 +7,8 @@ import subprocess
 V = os.path.dirname(os.path.dirname(os.path.abspath(__file__)))
 E1 = 'mirsym (symbolic execution of rustc MIR, z3 QF_BV) + native replay'
 E2 = 'kani 0.68 / CBMC 6.11 + concrete playback'
+E3 = 'mirsym on the segment tree (real MIR of seg::*, z3) with concrete bucket ranges per template + native replay'
+T_E3 = 'bounded symbolic execution of the real segment-tree MIR + SMT (z3): expirations, query times and the number of items consumed from a partially consumed query are symbolic; bucket ranges are concrete per template (enumerated family; thorough: all 528x528 insert/query pairs); counterexamples replayed natively'
 T_E1 = 'bounded symbolic execution of the real MIR + SMT (z3): one inductive step from every arena satisfying the representation invariant, plus bounded public-API histories; counterexamples replayed natively'
 T_E2 = 'bounded model checking of the compiled crate with Kani/CBMC (SAT), symbolic inputs, unwinding assertions; counterexamples replayed with concrete playback'
 
@@ -15,8 +17,8 @@ CLAIMS = {
          'bounds: arena slots, at most 1 (quick) / 2 (thorough) already-expired entries present at operation time, 8-bit keys/expirations/values; std Vec leaves modelled from their contract; trees larger than the bound are outside the claim'),
  'C02': (E1, T_E1, '2/C02', 'Inv(S) => Inv(S\') for every mutating entry point of the three trees from every arena within the bound (closed-form invariant: mutual links, order, no red-red, equal black counts, sentinel unlinked, link-typed and acyclic stale links), base case new(c) for c in {0,1,8,9}, and the code-free lemmas witness form <=> closed form and Inv => height <= 2 log2(n+1)+1 for the same N.',
          'same bounds as C01 (quick N=4, thorough N=6); one instantiation per tree (u8 keys)'),
- 'C03': (E2, T_E2, '2/C03', 'Kani on the real SegExpTree<i32,u8,_>: symbolic insert ranges, expirations, query ranges and times on the 32-point domain [0,31] (exact-intersection clause) and the 128-point domain [-50,77]; multiset of yielded values equals the reference, partial consumption yields a duplicate-free sub-multiset. The domain quantifier beyond these two is carried by C14 (all domains) and C15 (all mask pairs), decided without bound.',
-         'at most 2 stored values and 2 queries per history; per-loop unwinding bounds with unwinding assertions; very expensive for CBMC (63 heap-allocated place lists)'),
+ 'C03': (E3, T_E3, '3/C03', 'The real new / insert_by_range / iter_by_range / Iterator::next / clear code executed from its MIR on histories insert, insert, query (partially consumed, symbolic count), query (fully consumed) and variants with clear, on the 32-point domain [0,31] (bucket = coordinate: exact-intersection clause) and the 128-point domain [-50,77]; obligations: a fully consumed query yields each stored value exactly once iff its expiration >= t and its bucket range meets the query, a partially consumed one a duplicate-free sub-multiset, nothing else. Solver-decided: all expirations, times (non-decreasing), consumed counts. Enumerated: the bucket ranges (family of 16 x 10 x 10 shapes quick; all 528 x 528 pairs thorough). The all-domains / all-ranges part of the quantifier is carried by C14 and C15 (decided without bound).',
+         'ranges are concrete per template: fully symbolic ranges are out of reach (CBMC: one symbolic insert 7 min, insert+query > 50 min / 10 GB; no state merging in the MIR executor for the bit-iteration loops); <= 2 stored values (+1 after clear), <= 2 queries per history'),
  'C04': (E1, T_E1, '2/C04', 'Step proofs on MapTree: insert of an absent key, delete of any key, get_value, is_empty, clear: the abstract key->value map changes exactly as specified (checked for an arbitrary key), values are opaque tokens so "never altered, duplicated or lost" is map equality; growth step with a full arena; histories from new() with capacity hints 0,1,8,9.',
          'bounds as C01; values are Copy-like 8-bit tokens (Clone = copy); non-Copy V: no double drop follows from in-bounds accesses (C10), stated not encoded'),
  'C05': (E1, T_E1, '2/C05', 'As C04 on SetTree<u8, {key, payload}> with the key accessor as an observed callback; payload equality is part of the abstraction.', 'bounds as C01'),
@@ -24,13 +26,13 @@ CLAIMS = {
  'C07': (E1 + ' ; ' + E2, T_E1 + ' ; list variant: ' + T_E2, '2/C07', 'Step proof for into_ordered_vec from every arena within the bound incl. arbitrary stale links/entities in free slots: result = values of entries with expiration > t in key order, each once; is_part_of_the_tree proven equal to tree membership and used as a summary; histories with lazy removals before the export; list variant by Kani from every sorted buffer of <= 3 entries (same closed-form reference, hence identical vectors).', 'bounds as C01; list <= 3 entries'),
  'C08': (E1, T_E1, '2/C08', 'Step proofs on map and set: first_index_less / first_index_less_by return the slot of the greatest key <= probe (unique) or the sentinel, both forms against the same reference for half-integer probes; read / write / delete through a handle change exactly the designated entry.', 'comparators restricted to the family k -> (2k).cmp(p); bounds as C01'),
  'C09': (E1, T_E1, '2/C09', 'Step proofs on SetTree: index_after / index_before of every in-tree handle = slot of the next larger / smaller key or the sentinel, with every node() read in bounds; histories from new().', 'bounds as C01'),
- 'C10': (E1 + ' ; ' + E2, T_E1 + ' ; lists/segment tree: ' + T_E2, '2/C10', 'Obligation channel of every step and history harness of the three trees and key::array (every get_unchecked / Vec index in bounds, no MIR assert / panic / unwrap(None) reachable, loops and recursion within the unwinding bound) under the contract preconditions; Kani default checks (pointer validity, overflow, panics, unwinding) on the list and segment-tree harnesses.', 'quick N=4; contract preconditions assumed as listed in DESIGN.md'),
+ 'C10': (E1 + ' ; ' + E2 + ' ; ' + E3, T_E1 + ' ; lists: ' + T_E2 + ' ; segment tree: ' + T_E3, '2/C10', 'Obligation channel of every step and history harness of the three trees and key::array (every get_unchecked / Vec index in bounds, no MIR assert / panic / unwrap(None) reachable, loops and recursion within the unwinding bound) under the contract preconditions; Kani default checks (pointer validity, overflow, panics, unwinding) on the list and segment-tree harnesses.', 'quick N=4; contract preconditions assumed as listed in DESIGN.md'),
  'C11': (E1, T_E1, '2/C11', 'Accounting conjunct of the invariant (every slot exactly one of sentinel / in tree / free once) re-established by every mutating step, clear frees every slot, buffer length changes only in the growth step (free list empty = all slots in use) and then by the free list capacity <= 2*len, which bounds storage by 3*(peak+1).', 'RawVec growth policy modelled (amortised doubling); bounds as C02'),
- 'C12': (E1 + ' ; ' + E2, T_E1 + ' ; lists/segment tree: ' + T_E2, '2/C12', 'Trees: clear step => empty abstraction, all slots free, invariant; every other step already quantifies over arbitrary free-slot garbage and free-list order, so later behaviour is a function of the abstraction alone; histories with clear in the middle incl. a restarted clock. Lists and segment tree: Kani, state after clear equals that of new (buffers empty, cached expiration = MAX, every place empty) and a later insert/query behaves as on a fresh instance.', 'bounds as C01; lists <= 3 entries; segment tree <= 2 values'),
+ 'C12': (E1 + ' ; ' + E2 + ' ; ' + E3, T_E1 + ' ; lists: ' + T_E2 + ' ; segment tree: ' + T_E3, '2/C12', 'Trees: clear step => empty abstraction, all slots free, invariant; every other step already quantifies over arbitrary free-slot garbage and free-list order, so later behaviour is a function of the abstraction alone; histories with clear in the middle incl. a restarted clock. Lists and segment tree: Kani, state after clear equals that of new (buffers empty, cached expiration = MAX, every place empty) and a later insert/query behaves as on a fresh instance.', 'bounds as C01; lists <= 3 entries; segment tree <= 2 values'),
  'C13': (E2, T_E2, '2/C13', 'Kani steps from every sorted duplicate-free buffer of <= 3 entries (symbolic contents, built through the verif_from_raw hook; key list: any cached earliest expiration that is a lower bound) for every trait method of MapList, SetList, KeyExpList against the closed-form reference of C01/C04-C09; neighbour steps past either end give the sentinel.', '<= 3 stored entries; unwind 6 with unwinding assertions'),
  'C14': (E2, T_E2, '2/C14', 'Kani on Layout::new/index/count through read-only hook wrappers with fully symbolic (lo, hi, x, y): Some iff > 16 points, index(lo)=0, index(hi)<32, monotone, common power-of-two width (smallest covering), count = index(hi)+32, every mask bit below count - for all i32, all u32 and all i64 domains whose length fits: no bound on the domain. SegExpTree::new Some/None and single-point insert/query at lo and hi through the public API for domains up to 40 points.', 'public-API part bounded to 40-point domains (vec! loop)'),
- 'C15': (E2, T_E2, '2/C15', 'Kani, all four bucket bounds symbolic: place & visit != 0 iff ranges overlap; places tile [a,b] (exactly one ancestor-or-self per bucket inside, none outside); popcount <= 8; bit 63 clear - the whole finite space in one query; through the tree: one insert stores exactly one copy at each place of the mask.', 'none beyond the trusted base (rustc -> Kani -> CBMC)'),
- 'C16': (E2, T_E2, '2/C16', 'Kani: after a fully consumed whole-domain query at symbolic time t, at every place the stored copies are exactly the copies of values with expiration >= t (none expired kept, none unexpired lost).', '<= 2 stored values; domains [0,31] and [-50,77]'),
+ 'C15': (E2 + ' ; ' + E3, T_E2 + ' ; observed through the tree: ' + T_E3, '2/C15', 'Kani, all four bucket bounds symbolic: place & visit != 0 iff ranges overlap; places tile [a,b] (exactly one ancestor-or-self per bucket inside, none outside); popcount <= 8; bit 63 clear - the whole finite space in one query; through the tree: one insert stores exactly one copy at each place of the mask.', 'none beyond the trusted base (rustc -> Kani -> CBMC)'),
+ 'C16': (E3, T_E3, '3/C16', 'Same histories as C03; after every fully consumed whole-domain query at symbolic time t: every stored copy has expiration >= t, and every value with expiration >= t still has all its copies (none lost).', 'as C03'),
  'C17': (E1, T_E1, '2/C17', 'Insert step on map and set: every in-tree slot stays in the tree with the same key and value (insert never moves entities); histories: handle taken, insertion(s), read through the handle and re-lookup give the same entry.', 'bounds as C01'),
  'C18': (E1 + ' ; ' + E2, T_E1 + ' ; lists/segment tree: ' + T_E2, '2/C18', 'Trees: at every user-callback invocation of every explored path the tree state is recorded; obligations: invariant holds there and the abstraction equals that before or after the operation; cleanup blocks reachable from call unwind edges audited to touch only locals. Key list and segment tree: Kani with a symbolic callback fuse inspecting the collection at the panic point.', 'Kani has no unwinding: the state at the callback stands for the state after unwinding (justified by the cleanup audit); panics inside Vec::retain (KeyExpList::clear_expired) are outside the claim; map/set list callbacks happen before any mutation (binary search) - covered by C13 harnesses only'),
  'C19': (E1 + ' ; ' + E2, T_E1 + ' ; list variant: ' + T_E2, '2/C19', 'Every Vec::with_capacity reached in into_ordered_vec records its argument; obligation: capacity <= 2*(stored entries) + 8 for every arena within the bound, and for the returned vector; list variant by Kani.', 'the step from n <= 5 to millions of entries is analytic (capacity is an arithmetic function of slot counters), not machine-checked'),
